@@ -187,6 +187,10 @@ def _gen_estimator(rng, cls):
     nmax = max(n for n in (1, 2, 3) if nom ** n <= 64)
     case["N"] = rng.randint(1, nmax) if est != "enumerate" else 0
     case["table"] = _gen_table(rng, fam, shape, -2.0, 1.5) if is_log else _gen_table(rng, fam, shape)
+    if not is_log and rng.random() < 0.2:
+        # ordinary values of ordinary size (a percentage, an error count), not only fractions of one
+        case["table"] = _gen_table(rng, fam, shape, -120.0, 150.0)
+        case["big_values"] = True
     if rng.random() < 0.04:
         case["table"] = _map_table(case["table"], lambda v: 0.5)
     cv = "none"
@@ -219,6 +223,9 @@ def _gen_relaxed_est(rng, cls):
     case = {"class": cls, "est": "relax" if relax else "st", "m_exp": M_EXP,
             "dtype": rng.choice(["float32", "float32", "float64"]), "is_log": rng.random() < 0.25}
     lo, hi = (-2.0, 1.5) if case["is_log"] else (-2.0, 2.0)
+    if not case["is_log"] and rng.random() < 0.2:
+        lo, hi = -120.0, 150.0
+        case["big_values"] = True
     if cls.endswith("bernoulli"):
         d = rng.randint(1, 2 if relax else 3)
         case.update(family="lb", d=d, kind=rng.choice(["probs", "logits"]))
@@ -338,6 +345,13 @@ def _gen_srswor(rng, cls, tier):
             total = [rng.randint(0, tmax) for _ in range(n)]
             given = [rng.randint(0, t) for t in total]
         if len(bshape) > 1:
+            if rng.random() < 0.4:
+                # constant along the last batch dimension, different across the first
+                total = [total[0], total[0], total[2], total[2]] if rng.random() < 0.5 else [max(total)] * 4
+                g0, g1 = rng.randint(0, min(total[:2])), rng.randint(0, min(total[2:]))
+                if g0 == g1 and total[0] == total[2]:
+                    g1 = (g0 + 1) % (total[0] + 1)
+                given = [g0, g0, g1, g1]
             total = [total[:2], total[2:]]
             given = [given[:2], given[2:]]
         tm = max(max(x) if isinstance(x, list) else x for x in total)
@@ -1081,21 +1095,29 @@ def _exec_srswor(case, mon):
         return
     inside = mon.lib("SimpleRandomSamplingWithoutReplacement.support.check", lambda: dist.support.check(b))
     mon.check(bool(inside.all()), "srswor-sample-in-own-support", samples=b)
-    if len(set(tl)) == 1 and len(set(gl)) == 1:
+    equal = len(set(tl)) == 1 and len(set(gl)) == 1
+    if equal:
         mon.check(bool(dist.has_enumerate_support), "srswor-enumerable", total=tl[0], given=gl[0])
+    elif dist.has_enumerate_support:
+        mon.stat("srswor-claims-enumerable-with-unequal-counts")
+    if equal or dist.has_enumerate_support:
+        # whatever the distribution offers as its enumerated support: per batch element exactly that element's own
+        # support, over which its probabilities sum to one
         es = mon.lib("SimpleRandomSamplingWithoutReplacement.enumerate_support", dist.enumerate_support)
         want = X.binary_sequences_with_cardinality(tl[0], gl[0])
         mon.check(es.shape[0] == len(want) and tuple(es.shape[1:]) == bshape + (osz,), "srswor-support-size",
                   observed=list(es.shape), expected=[len(want)] + list(bshape) + [osz])
         for n in range(len(tl)):
             col = es.reshape(es.shape[0], -1, osz)[:, n]
-            got = set(tuple(int(x) for x in row[:tl[0]]) for row in col.tolist())
-            mon.check(got == want and bool((col[:, tl[0]:] == 0).all()), "srswor-support-elements",
-                      observed=sorted(got), expected=sorted(want))
+            want_n = X.binary_sequences_with_cardinality(tl[n], gl[n])
+            got = set(tuple(int(x) for x in row[:tl[n]]) for row in col.tolist())
+            mon.check(got == want_n and bool((col[:, tl[n]:] == 0).all()), "srswor-support-elements",
+                      observed=sorted(got), expected=sorted(want_n), total=tl[n], given=gl[n], batch_element=n)
         lp = mon.lib("SimpleRandomSamplingWithoutReplacement.log_prob", dist.log_prob, es)
         s = lp.double().exp().sum(0).reshape(-1)
         for n in range(s.numel()):
-            mon.close(s[n], 1.0, 1e-5, "srswor-support-sums-to-one", total=tl[0], given=gl[0])
+            mon.close(s[n], 1.0, 1e-5, "srswor-support-sums-to-one", total=tl[n % len(tl)], given=gl[n % len(gl)])
+    if equal:
         lps = mon.lib("SimpleRandomSamplingWithoutReplacement.log_prob", dist.log_prob, b)
         mon.close(lps.double().exp().reshape(-1)[0], 1.0 / max(len(want), 1), 1e-6, "srswor-sample-probability",
                   rel=1e-5)
